@@ -19,10 +19,10 @@ CHECKS = {
  "C12": ("exploration",
    "exhaustive enumeration of the unfiltered bounded grammar classes (undefined / unproductive / unreachable / ruleless-start cases included) through the real ParseAndBuild, verdict compared with reference definedness and productivity fixpoints",
    "Refused <=> the reference finds a symbol that is neither token nor defined, or an unproductive nonterminal (the verdict must not depend on whether terminals are declared names or undeclared literals, nor on ';' terminators); refusal must be a diagnostic (not a runtime error) and, for unproductivity, name exactly the unproductive nonterminals; every usable grammar must be processed within the fuel budget.",
-   "Trusted: reference fixpoints. The 2000-state limit is not exercised (no grammar of the classes comes near it).",
+   "Trusted: reference fixpoints. Usable grammars with 343, 1 557 and exactly 1 999 states (the built-in limit is 2 000) must be processed; what happens at 2 000 and beyond is not judged.",
    "3/C12"),
  "C01": ("model_checking",
-   "explicit-state exploration (prefix-shared DFS over all token strings up to depth k) of the LR machine defined by yaccgo's own dense and packed tables for every grammar of bounded classes; every reduction checked on a plain symbol stack (derivation checker) and every accept against an Earley recognizer; model runs replayed on compiled generated parsers",
+   "explicit-state exploration (prefix-shared DFS over all token strings up to depth k) of the LR machine defined by yaccgo's own dense and packed tables for every grammar of bounded classes (each also with its rule groups split up) and a family list that includes a 343-state automaton; every reduction checked on a plain symbol stack (derivation checker) and every accept against an Earley recognizer; model runs replayed on compiled generated parsers",
    "Every configuration reachable on every token string up to the bound, for every usable grammar of the classes (conflicting ones included: their conflicts were resolved by default rules): reductions read backwards must be a rightmost derivation of exactly the input. The abstract driver has the generated driver's control flow and is bound to the generated Go/TypeScript code by replaying all its runs on the conformance corpus.",
    "Trusted: derivation checker, Earley recognizer, the abstract driver (bound by conformance replays). Bounds: depth 5/6 tokens, grammars up to 4 rules.",
    "3/C01"),
@@ -62,27 +62,27 @@ CHECKS = {
    "Trusted: abstract LR driver (bound to generated code by C01/C08 replays), whitespace-normalised comparison.",
    "3/C17"),
  "C14": ("exploration",
-   "schedule exploration where the schedule is map iteration order: a build-time source overlay hands every range-over-map in yaccgo to the harness; deviation-bounded exhaustive enumeration (canonical order, then every alternative permutation at each single visit, uniform reversed/rotated policies, two deviating visits on the smallest grammars), output bytes compared; call histories in one process; repeated runs of the native CLI as a free-running pass",
+   "schedule exploration where the schedule is map iteration order: a build-time source overlay hands every range-over-map in yaccgo to the harness; deviation-bounded exhaustive enumeration (canonical order, then every alternative permutation at each single visit, uniform reversed/rotated policies, two deviating visits on the smallest grammars), output bytes compared; call histories in one process, all calls of a history writing to one output path; repeated runs of the native CLI as a free-running pass",
    "For each corpus grammar and each option set the generated file must be byte-identical under every explored iteration order of every map range, after any history of earlier generation calls, and across repeated native runs. Deviation bound 1 is complete for visits of up to 6 keys (all permutations); larger visits use reversal, rotations and adjacent transpositions (reported as a cap).",
    "Trusted: the overlay rewriter (repo tests pass under it; every produced order is one Go allows). Assumes map iteration is yaccgo's only nondeterminism.",
    "3/C14"),
  "C13": ("exploration",
-   "exhaustive enumeration of a text space (all fragment sequences up to a length bound over a 38-piece lexical alphabet, every byte prefix and every single-token edit of corpus grammar files) through the real front end on an overlay build where every loop iteration burns fuel; hangs = fuel exhaustion / spinning background goroutine / runtime deadlock, each confirmed on the native CLI",
+   "exhaustive enumeration of a text space (all fragment sequences up to a length bound over a 38-piece lexical alphabet, every byte prefix and every single-token edit of corpus grammar files) through the real front end on an overlay build where every loop iteration burns fuel; hangs = fuel exhaustion / spinning background goroutine / runtime deadlock, each confirmed on the native CLI; the drawing option -g (which hands the graph text to another process, waiting burns no fuel) is run through the native CLI on every corpus file and on automata of 343 and 1 557 states under a 90 s deadline (1.5 s is the slowest observed)",
    "generate go, generate typescript and debug must return or stop with a diagnostic on every text of the explored space (non-ASCII fragments and three grammars with exponential LR(0) automata included); termination is decided deterministically by fuel (25 000 loop iterations per input byte, about 50x the largest terminating run), not by wall clock.",
    "Trusted: the overlay rewriter instruments every for/range loop and function entry of the repository packages; the fuel margin. Not all byte strings: the fragment alphabet, prefixes and single edits.",
    "3/C13"),
  "C16": ("exploration",
-   "bounded exhaustive enumeration of output shapes: every printable punctuation character as literal token (declared, undeclared, with precedence), awkward-but-legal names, tag mixes, explicit numbers, tokens introduced only by %left, plus a fixed-stride selection of the bounded grammar classes, each generated in all five variants with the minimal prologue/epilogue the statement allows; Go files compiled with the Go toolchain, TypeScript type-erased and loaded under Node",
+   "bounded exhaustive enumeration of output shapes: every printable punctuation character as literal token (declared, undeclared, with precedence), awkward-but-legal names, names with one character of each Unicode class near identifiers, white-space and non-ASCII literals, tag mixes, explicit numbers (also colliding ones: whatever yaccgo writes must compile), tokens introduced only by %left, comments and strings inside actions, several prologue blocks, plus a fixed-stride selection of the bounded grammar classes, each generated in all five variants with the minimal prologue/epilogue the statement allows; Go files compiled with the Go toolchain, TypeScript type-erased and loaded under Node",
    "Whenever yaccgo generates a file without reporting an error the file must compile (Go: go build of all packages) or load (TypeScript under Node after type erasure).",
    "Trusted: Go toolchain, Node 20, the type eraser. TypeScript type correctness is not checked (no tsc in the image). Domain: token names that are not reserved/predeclared words nor skeleton names.",
    "3/C16"),
  "C10": ("exploration",
-   "deviation-bounded exhaustive enumeration of textual renderings: each abstract specification is a sequence of atoms; every gap takes every separator (blank, newline, tab, block comment, line comment, mixed, empty where allowed) one gap at a time, all gaps uniformly, and pairs of gaps (thorough), with and without ';' and with '|' or repeated left sides; what the real front end hands to table construction is compared field by field with the abstract specification",
+   "deviation-bounded exhaustive enumeration of textual renderings: each abstract specification is a sequence of atoms; every gap takes every separator (blank, newline, CR LF, tab, block comments incl. `/** c **/` and `/*/ c */`, line comment, mixed, empty where allowed) one gap at a time, all gaps uniformly, and pairs of gaps (thorough), with and without ';', with '|' or repeated left sides, with one %token line per token or grouped lines (numbers, string aliases); what the real front end hands to table construction is compared field by field with the abstract specification",
    "For every rendering explored, rules in order (with %prec and action bodies), start symbol, token numbers, tags, precedence levels and associativity, prologue, %union body and epilogue must equal the abstract specification, and the generated Go/TypeScript file must carry prologue, union, actions and epilogue.",
-   "Domain: ASCII, no carriage returns, one trailing action per alternative, balanced braces in actions. Prologue/union compared modulo surrounding whitespace.",
+   "Braces in actions balanced outside strings, runes and comments. A specification with mid-rule actions may be refused with a diagnostic but no action body may be dropped silently (one open known finding: yaccgo drops them). Prologue/union compared modulo surrounding whitespace.",
    "3/C10"),
  "C11": ("exploration",
-   "exhaustive enumeration of token declaration mixes (ordered, up to 3/4 tokens from a 20-option menu: automatic, tagged, explicit numbers, declared only by %left, declared twice, character literals declared / only by precedence / only used) through the real front end; codes checked in-process under canonical and reversed map order; constants and translate(c) for every c in [-2,max+2] checked on compiled Go and loaded TypeScript programs for a fixed stride of the mixes",
+   "exhaustive enumeration of token declaration mixes (ordered, up to 3/4 tokens from a 20-option menu: automatic, tagged, explicit numbers, declared only by %left, declared twice, character literals declared / only by precedence / only used) through the real front end; codes checked in-process under canonical and reversed map order; constants and translate(c) for every c in [-9,max+2] checked on compiled Go (default and -o) and loaded TypeScript programs for a fixed stride of the mixes, which are also run end to end: the lexer answers code sequences (the rule's own, prefixes, transpositions, one undeclared code 0 / max+1 / -7 / max+2 at each position) and the parser must accept exactly the rule's own",
    "Literal = character code, explicit number kept, all codes distinct and never -1/0; `const NAME = n` equals the code for every named token (no other constants); translate maps each code to its own symbol id, -1 to the end marker and every other integer to the error column.",
    "Assumes the statement's proviso (explicit numbers distinct from each other and from literal codes used).",
    "3/C11"),
@@ -98,7 +98,7 @@ CHECKS = {
    "3/C19"),
  "C15": ("model_checking",
    "(a) exhaustive enumeration of parse histories (all sequences of <=3 parses over <=8 inputs per parser, with re-initialisation / fresh contexts, Go and TypeScript) compared with the solo (model) result; (b) stateless model checking of the real generated -o parsers under a hand-written cooperative scheduler: 2-3 contexts in separate goroutines, scheduling points at every lexer fetch and semantic action, all schedules with <=2 preemptions (all interleavings for short pairs), deviating schedules replayed; (c) separate free-running -race pass of the same bodies on 8 goroutines",
-   "Every parse in every history and every schedule must give exactly the observation of that parse alone (verdict, reductions with fetch counts, value), also with actions that do not always assign $$ and on one global parser / one -o context re-initialised 12 000 times; no data race between contexts.",
+   "Every parse in every history and every schedule must give exactly the observation of that parse alone (verdict, reductions with fetch counts, value), also with actions that do not always assign $$ and on one global parser / one -o context re-initialised 12 000 times; a value returned by a parse must still read the same after the later parses of the history (the caller keeps the pointer); no data race between contexts.",
    "Scheduling points = the places where user code runs inside Parser(); unsynchronised accesses elsewhere are the race pass's job (cooperative hand-offs are happens-before edges). Bounds: 3 parses per history, 8 inputs of <=4 tokens, 2 preemptions, 3 contexts.",
    "3/C15"),
 }
